@@ -158,7 +158,7 @@ RX_APIS = {
     "match_str": "%(S)s.match(%(P)s)",
     "search_str": "%(S)s.search(%(P)s)",
 }
-RX_BUILD = ("literal", "ctor_new", "ctor_call", "hoisted_literal", "hoisted_ctor")
+RX_BUILD = ("literal", "ctor_new", "ctor_call", "hoisted_literal", "hoisted_ctor", "setup_literal", "setup_ctor", "setup_eval")
 
 
 def _regex_stmt(c, p):
@@ -184,6 +184,9 @@ def _regex_stmt(c, p):
     elif build == "hoisted_literal":
         pre = "var rx1=%s, rx1g=%s; " % (lit, litg)
         R, RG = "rx1", "rx1g"
+    elif build.startswith("setup_"):
+        # the RegExp objects were created by an EARLIER eval on the same context (see setup_src)
+        R, RG = "rxs", "rxsg"
     else:
         pre = "var rx2=new RegExp(%s), rx2g=new RegExp(%s,'g'); " % (pj, pj)
         R, RG = "rx2", "rx2g"
@@ -194,6 +197,20 @@ def _regex_stmt(c, p):
         # inside the match or after it
         return ("", "%s%s; while(true){ %s; }" % (pre, call, call))
     return ("", "%swhile(%s){ %s; }" % (pre, _c(c), call))
+
+
+def setup_src(cell):
+    """Source of an eval that runs on the same context before the measured one (or None)."""
+    p = cell.get("params", {})
+    if cell["keepalive"] != "regex" or not p.get("rx_build", "").startswith("setup_"):
+        return None
+    pat = RX_FAMILIES[p["rx_family"]][0]
+    pj = json.dumps(pat)
+    if p["rx_build"] == "setup_literal":
+        return "var rxs=/%s/, rxsg=/%s/g; 'setup';" % (pat, pat)
+    if p["rx_build"] == "setup_ctor":
+        return "var rxs=new RegExp(%s), rxsg=new RegExp(%s,'g'); 'setup';" % (pj, pj)
+    return "eval(%s); 'setup';" % json.dumps("var rxs=/%s/, rxsg=/%s/g;" % (pat, pat))
 
 
 def _regex():
@@ -491,6 +508,12 @@ def execute(case):
             else:
                 W.schedule(base + f["at_work"], fn2)
 
+    ssrc = setup_src(case["cell"])
+    if ssrc is not None:
+        so = run_eval(ctx, ssrc, 3_000_000)
+        W.log("setup", so["kind"])
+        # the process was descheduled between the two evals (more than T passes)
+        S.mono_off += 2.5 * T
     off0 = S.mono_off
     cap_extra = (T_work if not case["control"] else 3_000_000) + 5 * B_OVERRUN
     out = run_eval(ctx, case["src"], cap_extra, track)
